@@ -120,7 +120,15 @@ def run(ctx):
         ctx.violation('C03.b', '<selftest>', 'positive-example', 'mutable-access detector no longer sees selftest/positive Pkt::peek', kind='undecided')
     for cfg in ctx.configs():
         facts = ctx.facts(cfg)
-        # ---------------- C03.a ------------------------------------------------
+        pairing_rule(ctx, facts, cfg, 'C03.a')
+        readonly_rule(ctx, facts, cfg)
+        opt_skip(ctx, facts, cfg)
+        layout.check_readers(ctx, facts, cfg, 'C03.c')
+    ctx.assume('cursor invariants of accepted packets (offset <= offset_next <= len) are run-time facts and are not decided here')
+
+
+def pairing_rule(ctx, facts, cfg, rid):
+    if True:
         au = Pairing()
         flow = PathFlow(facts, au)
         nadv = 0
@@ -140,11 +148,11 @@ def run(ctx):
             nadv += sum(1 for c, _, _ in sites if c == 'advance')
             exits = flow.summary(key, 0)
             bad = sorted((q, kind) for (q, kind) in exits if q != 0)
-            ctx.instance('C03.a', '%s: %d advance / %d decrement site(s), exits %s' % (key, sum(1 for c in sites if c[0] == 'advance'),
+            ctx.instance(rid, '%s: %d advance / %d decrement site(s), exits %s' % (key, sum(1 for c in sites if c[0] == 'advance'),
                          sum(1 for c in sites if c[0] == 'decrement'), sorted(exits, key=repr)), ok=not bad, site=f['at'])
             for (q, kind) in bad:
                 w = flow.witness(key, 0, q, kind)
-                ctx.violation('C03.a', key, 'advance-minus-decrement=%+d' % q,
+                ctx.violation(rid, key, 'advance-minus-decrement=%+d' % q,
                               'a path through %s advances the cursor %s than it decrements rrs_left (exit %s): the walk %s'
                               % (key.split('::')[-1], 'more often' if q > 0 else 'less often', kind,
                                  'overruns the section' if q > 0 else 'stops early'),
@@ -152,13 +160,16 @@ def run(ctx):
             for c, bi, at in sites:
                 if c == 'decrement':
                     g = guard_of_decrement(f, defs, bi)
-                    ctx.instance('C03.a-guard', 'decrement in %s guarded by rrs_left == 0' % key, ok=g, site=at)
+                    ctx.instance(rid + '-guard', 'decrement in %s guarded by rrs_left == 0' % key, ok=g, site=at)
                     if not g:
-                        ctx.violation('C03.a-guard', key, 'unguarded-decrement', 'rrs_left is decremented without a dominating `rrs_left == 0 -> None` test', site=at, config=cfg)
-        ctx.rules.setdefault('C03.a', {'desc': '', 'instances': 0, 'ok': 0, 'samples': []})['desc'] = 'cursor advance / rrs_left decrement pairing on every path'
+                        ctx.violation(rid + '-guard', key, 'unguarded-decrement', 'rrs_left is decremented without a dominating `rrs_left == 0 -> None` test', site=at, config=cfg)
+        ctx.rules.setdefault(rid, {'desc': '', 'instances': 0, 'ok': 0, 'samples': []})['desc'] = 'cursor advance / rrs_left decrement pairing on every path'
         if nadv < 4:
-            ctx.violation('C03.a', '<floor>', 'advance-sites', 'only %d cursor advance site(s) found, expected at least 4 (question, edns, response, OPT skip)' % nadv, kind='below-floor')
-        # ---------------- C03.b ------------------------------------------------
+            ctx.violation(rid, '<floor>', 'advance-sites', 'only %d cursor advance site(s) found, expected at least 4 (question, edns, response, OPT skip)' % nadv, kind='below-floor')
+
+
+def readonly_rule(ctx, facts, cfg):
+    if True:
         entries = []
         for p in ACCESSORS_TRAIT:
             ks = facts.inst_keys(p)
@@ -193,11 +204,6 @@ def run(ctx):
                 if kind == 'ext' and d in ('parsed_packet::ParsedPacket::packet_mut',):
                     ctx.violation('C03.b', k, 'packet_mut', 'read accessor reaches packet_mut()', site=site, config=cfg)
         ctx.sample({'rule': 'C03.b', 'entries': len(set(entries)), 'reachable': len(seen), 'mutable_accesses': len(hits)})
-        # ---------------- C03.d ------------------------------------------------
-        opt_skip(ctx, facts, cfg)
-        # ---------------- C03.c ------------------------------------------------
-        layout.check_readers(ctx, facts, cfg, 'C03.c')
-    ctx.assume('cursor invariants of accepted packets (offset <= offset_next <= len) are run-time facts and are not decided here')
 
 
 def opt_skip(ctx, facts, cfg):
